@@ -260,6 +260,14 @@ pub enum Op {
     Vote(usize),
     Meta,
     ExtraDatum(usize),
+    /// set_ttl_bignum(2^33) and set_validity_start_interval(7)
+    Ttl,
+    /// set_current_treasury_value(10^12)
+    Treasury,
+    /// add_mint_asset_and_output_min_required_coin: +7 of (policy 0, third name) and an output holding them
+    MintAndOutput,
+    /// add_json_metadatum (label 1) next to whatever metadata is set
+    MetaJson,
 }
 
 pub fn op_name(op: &Op) -> String {
@@ -284,6 +292,10 @@ pub struct Model {
     pub votes: Vec<usize>,
     pub meta: bool,
     pub extra_datums: Vec<usize>,
+    pub ttl: bool,
+    pub treasury: bool,
+    pub mint_and_output: bool,
+    pub meta_json: bool,
 }
 
 pub struct St {
@@ -590,6 +602,34 @@ pub fn apply(w: &World, st: &mut St, op: Op) -> bool {
             st.m.meta = true;
             true
         }
+        Op::Ttl => {
+            if st.m.ttl {
+                return false;
+            }
+            st.m.ttl = true;
+            true
+        }
+        Op::Treasury => {
+            if st.m.treasury {
+                return false;
+            }
+            st.m.treasury = true;
+            true
+        }
+        Op::MintAndOutput => {
+            if st.m.mint_and_output {
+                return false;
+            }
+            st.m.mint_and_output = true;
+            true
+        }
+        Op::MetaJson => {
+            if st.m.meta_json {
+                return false;
+            }
+            st.m.meta_json = true;
+            true
+        }
         Op::ExtraDatum(i) => {
             if st.m.extra_datums.contains(&i) {
                 return false;
@@ -637,9 +677,13 @@ pub fn config(i: usize) -> (&'static str, Params) {
             p.max_value_size = 70;
             "byron-change-address,max_value_size=70"
         }
-        _ => {
+        8 => {
             p.legacy_api = true;
             "older-entry-points"
+        }
+        _ => {
+            p.churn = true;
+            "set-remove-set"
         }
     };
     (name, p)
@@ -676,7 +720,33 @@ pub fn setup(w: &World, st: &St, params: &Params) -> Result<TransactionBuilder, 
     let mut tb = TransactionBuilder::new(&params.config());
     // legacy mode: every component that the older entry points can express goes through them
     let legacy = params.legacy_api;
-    let simple_inputs = st.m.inputs.iter().all(|(i, v)| *v == 0 && !matches!(w.utxos[*i].0.owner, Owner::Plutus(_)));
+    let simple_inputs = st.m.inputs.iter().all(|(i, v)| *v == 0 || matches!(w.utxos[*i].0.owner, Owner::Plutus(_)));
+    // churn: everything that has a remove_* counterpart is first set to something else and removed
+    // again; the builder must then behave as if it had never been set
+    if params.churn {
+        let mut cb = CertificatesBuilder::new();
+        cb.add(&w.certs[1].cert).map_err(|e| format!("churn cert: {:?}", e))?;
+        tb.set_certs_builder(&cb);
+        tb.remove_certs();
+        let mut wb = WithdrawalsBuilder::new();
+        wb.add(&reward_key(3), &bn(77_000_000)).map_err(|e| format!("churn wd: {:?}", e))?;
+        tb.set_withdrawals_builder(&wb);
+        tb.remove_withdrawals();
+        let mut mb = MintBuilder::new();
+        mb.add_asset(&MintWitness::new_native_script(&NativeScriptSource::new(&w.native[0])), &w.names[0], &Int::new_i32(99)).map_err(|e| format!("churn mint: {:?}", e))?;
+        tb.set_mint_builder(&mb);
+        tb.remove_mint_builder();
+        let mut md = GeneralTransactionMetadata::new();
+        md.insert(&bn(1), &TransactionMetadatum::new_text("churn".into()).unwrap());
+        tb.set_metadata(&md);
+        tb.remove_auxiliary_data();
+        tb.set_ttl_bignum(&bn(123_456_789_000));
+        tb.remove_ttl();
+        tb.set_validity_start_interval_bignum(bn(99));
+        tb.remove_validity_start_interval();
+        tb.set_script_data_hash(&ScriptDataHash::from_bytes(hash32(0xee)).unwrap());
+        tb.remove_script_data_hash();
+    }
     if legacy && simple_inputs {
         for (i, _) in &st.m.inputs {
             let (spec, u) = &w.utxos[*i];
@@ -692,7 +762,7 @@ pub fn setup(w: &World, st: &St, params: &Params) -> Result<TransactionBuilder, 
                 }
                 Owner::Byron(b) => tb.add_bootstrap_input(&crate::gen::byron_cached(*b as usize), &inp, &val),
                 Owner::Native(n) => tb.add_native_script_input(&w.native[*n], &inp, &val),
-                Owner::Plutus(_) => unreachable!(),
+                Owner::Plutus(p) => tb.add_plutus_script_input(&plutus_witness(w, *p, st.m.inputs.iter().find(|x| x.0 == *i).map(|x| x.1).unwrap_or(0), RedeemerTag::new_spend(), 100 + *i as u64, Some(*i % 3)), &inp, &val),
             }
         }
     } else {
@@ -758,6 +828,20 @@ pub fn setup(w: &World, st: &St, params: &Params) -> Result<TransactionBuilder, 
         let mut md = GeneralTransactionMetadata::new();
         md.insert(&bn(674), &TransactionMetadatum::new_text("hello".into()).unwrap());
         tb.set_metadata(&md);
+    }
+    if st.m.meta_json {
+        tb.add_json_metadatum(&bn(1), "{\"k\": [1, \"two\"]}".to_string()).map_err(|e| format!("add_json_metadatum: {:?}", e))?;
+    }
+    if st.m.ttl {
+        tb.set_ttl_bignum(&bn(1 << 33));
+        tb.set_validity_start_interval(7);
+    }
+    if st.m.treasury {
+        tb.set_current_treasury_value(&bn(1_000_000_000_000)).map_err(|e| format!("set_current_treasury_value: {:?}", e))?;
+    }
+    if st.m.mint_and_output {
+        let ob = TransactionOutputBuilder::new().with_address(&enterprise_addr(2)).next().map_err(|e| format!("output builder: {:?}", e))?;
+        tb.add_mint_asset_and_output_min_required_coin(&w.native[0], &w.names[2], &Int::new_i32(7), &ob).map_err(|e| format!("add_mint_asset_and_output_min_required_coin: {:?}", e))?;
     }
     for d in &st.m.extra_datums {
         tb.add_extra_witness_datum(&w.datums[*d]);
@@ -969,6 +1053,7 @@ pub fn ops_for(prop: &str) -> Vec<Op> {
             Op::Wd(0), Op::Wd(2), Op::Mint(0), Op::Mint(1), Op::Mint(3), Op::Proposal(0), Op::Donate,
             Op::Fee(0), Op::Fee(1), Op::Fee(2), Op::Fee(3), Op::Coll(1), Op::Meta, Op::RefIn(1), Op::RefIn(3),
             Op::WdAgain(0), Op::WdAgain(2), Op::Wd(4), Op::InAgain(0), Op::In(7, 0), Op::In(7, 1), Op::In(8, 0), Op::In(17, 0),
+            Op::Ttl, Op::Treasury, Op::MintAndOutput, Op::MetaJson,
         ],
         // C16 looks at ordering and repetition in the built transaction: items that bring scripts,
         // datums, reference inputs, signers - one or two per source
@@ -1002,7 +1087,7 @@ pub fn core_ops_for(prop: &str) -> Vec<Op> {
             Op::Out(0), Op::Out(1), Op::Out(2), Op::Out(3), Op::Out(4),
             Op::Cert(0), Op::Cert(3), Op::Cert(7), Op::Cert(13), Op::Cert(20),
             Op::Wd(0), Op::Wd(2), Op::WdAgain(0), Op::Wd(4), Op::Mint(0), Op::Mint(1), Op::Mint(3), Op::Proposal(0), Op::Donate,
-            Op::Fee(0), Op::Fee(2), Op::Coll(1), Op::RefIn(3),
+            Op::Fee(0), Op::Fee(2), Op::Coll(1), Op::RefIn(3), Op::MintAndOutput,
         ],
         _ => ops_for(prop),
     }
@@ -1025,9 +1110,9 @@ pub fn configs_for(prop: &str, tier: Tier) -> Vec<usize> {
     match prop {
         "C05" | "C06" | "C07" | "C03" => {
             if tier.thorough() {
-                vec![0, 1, 2, 3, 4, 5, 6, 7, 8]
+                vec![0, 1, 2, 3, 4, 5, 6, 7, 8, 9]
             } else {
-                vec![0, 1, 2, 3, 5, 6, 8]
+                vec![0, 1, 2, 3, 5, 6, 8, 9]
             }
         }
         "C18" => vec![0, 5, 8],
@@ -1038,7 +1123,8 @@ pub fn configs_for(prop: &str, tier: Tier) -> Vec<usize> {
 
 pub fn depth_for(prop: &str, tier: Tier) -> usize {
     match (prop, tier.thorough()) {
-        ("C05", false) | ("C06", false) | ("C07", false) | ("C03", false) => 3,
+        // quick: the full alphabet to depth 2 plus the deep pass (depth 3, core alphabet)
+        ("C05", false) | ("C06", false) | ("C07", false) | ("C03", false) => 2,
         // thorough: the full alphabet to depth 3 under all methods and configurations, plus the deep pass (depth 4, core alphabet)
         ("C05", true) | ("C06", true) | ("C07", true) | ("C03", true) => 3,
         ("C18", false) | ("C16", false) => 4,
@@ -1175,7 +1261,7 @@ pub fn explore_for(prop: &str, tier: Tier, seed: u64, rep: &mut Report) {
     rep.bound("builder_methods", serde_json::json!(methods_for(prop, tier).iter().map(|m| format!("{:?}", m)).collect::<Vec<_>>()));
     rep.bound("builder_configs", serde_json::json!(configs_for(prop, tier).iter().map(|c| config(*c).0).collect::<Vec<_>>()));
     rep.add("builder (BFS over operation histories)", &format!("all histories to depth {} with canonical-state dedup; every (method x config) in every state; RNG <= 1 deviation", depth), st);
-    if tier.thorough() && matches!(prop, "C05" | "C06" | "C07" | "C03") {
+    if matches!(prop, "C05" | "C06" | "C07" | "C03") {
         let f = scenario_for(prop, "builder_deep", tier).unwrap();
         let core = core_ops_for(prop);
         let st = bfs("builder_deep", &*f, core.len(), depth + 1, &opts);
